@@ -437,6 +437,10 @@ static void MACRO_OutProcessor(void) {
                         = DuplicateStringList(FirstOutputTag->Mac->ParamDefVals);
                 GMacro->UsesNumArgs = FirstOutputTag->Mac->UsesNumArgs;
                 GMacro->UsesAllArgs = FirstOutputTag->Mac->UsesAllArgs;
+                GMacro->UseCounter  = 0;
+                GMacro->LstMacroExpMod = FirstOutputTag->Mac->LstMacroExpMod;
+                GMacro->LocIntLabel    = FirstOutputTag->Mac->LocIntLabel;
+                GMacro->GlobalSymbols  = FirstOutputTag->Mac->GlobalSymbols;
                 AddMacro(GMacro, FirstOutputTag->GlobSect, False);
             }
         } else {
